@@ -387,6 +387,11 @@ class DictList(list):
     def insert(self, index: int, entity: Object) -> None:
         """Insert entity before index."""
         self._check(entity.id)
+        # normalize the index the same way `list.insert` does
+        if index < 0:
+            index = max(index + len(self), 0)
+        else:
+            index = min(index, len(self))
         list.insert(self, index, entity)
         # all subsequent entries now have been shifted up by 1
         _dict = self._dict
@@ -486,6 +491,8 @@ class DictList(list):
             list.__setitem__(self, i, y)
             self._generate_index()
             return
+        if i < 0 and i + len(self) >= 0:
+            i += len(self)
         # in case a rename has occurred
         if self._dict.get(self[i].id) == i:
             self._dict.pop(self[i].id)
@@ -501,6 +508,8 @@ class DictList(list):
         if isinstance(removed, list):
             self._generate_index()
             return
+        if index < 0:
+            index += len(self) + 1
         _dict = self._dict
         _dict.pop(removed.id)
         for i, j in _dict.items():
